@@ -21,7 +21,7 @@ RULE = ("case = (solver x noise cell, fixed|adaptive, ts/dt layout, SDE seed); n
 ASSUMPTIONS = ["float64 central differences eps=1e-6: truncation+rounding error ~1e-9 relative; threshold 1e-6",
                "adaptive: 'away from accept/reject boundaries' is realised by freezing the recorded schedule"]
 REQUIRED_COUNTERS = ["fixed_runs", "adaptive_runs", "adaptive_rejections_replayed", "error_control_calls",
-                     "unaligned_outputs", "wrt_params_only", "wrt_y0_only", "wrt_both", "plain_object_sde"]
+                     "unaligned_outputs", "wrt_params_only", "wrt_y0_only", "wrt_both", "plain_object_sde", "logqp_losses"]
 THRESHOLDS = {"rel": 1e-6}
 
 
@@ -61,12 +61,19 @@ def run_case(case):
     gen = torch.Generator().manual_seed(case["rseed"])
     y0v = torch.randn(B, d, generator=gen)
     w = torch.randn(len(tsl), B, d, generator=gen)
+    wq = torch.randn(len(tsl) - 1, B, generator=gen)
     params = list(sde.parameters())
     # who is differentiated: y0 and the parameters / the parameters only (y0 a plain constant tensor) / y0 only;
     # and how the SDE is handed over: the nn.Module itself or a plain object (not an nn.Module) with the same f and g,
     # whose differentiable inputs are therefore not discoverable through .parameters()
     wrt = rng.choice(["both", "both", "params_only", "params_only", "y0_only"])
     plain = rng.random() < 0.3
+    # logqp=True: the returned log-ratio is part of the returned numerical solution and is differentiated too
+    # (through stable_division / the pseudo-inverse of g); the loss then weights both outputs
+    logqp = rng.random() < 0.35
+    cnt["logqp_losses"] = int(logqp)
+    if logqp:
+        sde = zoo.Conditioned(sde)
     cnt["wrt_" + wrt] = 1
     cnt["plain_object_sde"] = int(plain)
     dirs = [torch.randn(B, d, generator=gen)] + [torch.randn(p.shape, generator=gen) for p in params]
@@ -78,17 +85,21 @@ def run_case(case):
         if case["adaptive"] else {}
 
     def loss(s, y0, probe):
-        bm = torchsde.BrownianInterval(t0=tsl[0], t1=tsl[-1], size=(B, s.m), entropy=entropy,
+        msize = s.m + (1 if (logqp and s.noise_type == "diagonal") else 0)
+        bm = torchsde.BrownianInterval(t0=tsl[0], t1=tsl[-1], size=(B, msize), entropy=entropy,
                                        levy_area_approximation=levy)
-        obj = zoo.Plain(s.f, s.g, s.noise_type, s.sde_type) if plain else s
+        obj = zoo.Plain(s.f, s.g, s.noise_type, s.sde_type, h=s.h) if plain else s
         with probe.installed():
+            if logqp:
+                ys, lq = zoo.solve(cell, obj, y0, ts, dt, bm=bm, logqp=True, **akw)
+                return (ys * w).sum() + (lq * wq).sum()
             ys = zoo.solve(cell, obj, y0, ts, dt, bm=bm, **akw)
         return (ys * w).sum()
 
     nominal = probes.SolverProbe(keep_states=False)
     y0 = y0v.clone().requires_grad_(wrt != "params_only")
     L = loss(sde, y0, nominal)
-    ctx0 = f"cell={zoo.cell_name(cell)} adaptive={case['adaptive']} wrt={wrt} plain_object={plain}"
+    ctx0 = f"cell={zoo.cell_name(cell)} adaptive={case['adaptive']} wrt={wrt} plain_object={plain} logqp={logqp}"
     if not L.requires_grad:
         return {"violations": [{"mechanism": "solution_not_attached_to_autograd_graph",
                                 "detail": f"sdeint output does not require grad although inputs do: {ctx0}"}],
@@ -105,16 +116,16 @@ def run_case(case):
     class Replay(probes.SolverProbe):
         pass
 
-    def shifted(sign):
+    def shifted(sign, eps=1e-6):
         s2 = copy.deepcopy(sde)
         with torch.no_grad():
             for p, v in zip(s2.parameters(), dirs[1:]):
-                p.add_(sign * 1e-6 * v)
+                p.add_(sign * eps * v)
         pr = probes.SolverProbe(keep_states=False,
                                 error_script=(lambda i, real: rec_err[i]) if case["adaptive"] else None,
                                 step_size_script=((lambda i, ns, nr: (rec_upd[i], nr)) if case["adaptive"] else None))
         with torch.no_grad():
-            val = float(loss(s2, (y0v + sign * 1e-6 * dirs[0]), pr))
+            val = float(loss(s2, (y0v + sign * eps * dirs[0]), pr))
         if case["adaptive"] and (len(pr.errors) != len(rec_err) or len(pr.updates) != len(rec_upd)):
             raise RuntimeError("replayed schedule has a different length")
         return val, pr
@@ -130,7 +141,23 @@ def run_case(case):
     rel = abs(an - fd) / max(abs(fd), 1e-3)
     mx["rel_err"] = rel
     if not rel <= THRESHOLDS["rel"]:
-        viol.append({"mechanism": f"backprop_differs_from_finite_difference:{'adaptive' if case['adaptive'] else 'fixed'}",
+        # Is the finite difference itself trustworthy here? Repeat it at eps = 1e-5 and 1e-7. A wrong gradient disagrees
+        # with all three; an ill-conditioned functional (e.g. logqp through the pseudo-inverse of a nearly singular
+        # diffusion matrix: values ~1e8) makes the three differences disagree among themselves - that is a limit of
+        # the oracle, counted and skipped, never charged to the library.
+        fds = [fd]
+        for e2 in (1e-5, 1e-7):
+            (a2, _), (b2, _) = shifted(+1, e2), shifted(-1, e2)
+            fds.append((a2 - b2) / (2 * e2))
+        rels = [abs(an - x) / max(abs(x), 1e-3) for x in fds]
+        spread = (max(fds) - min(fds)) / max(abs(fd), 1e-3)
+        if min(rels) <= THRESHOLDS["rel"] or spread > 0.1 * min(rels):
+            cnt["fd_oracle_unreliable_skipped"] = 1
+            return {"violations": [], "counters": cnt, "max": {}, "nontrivial": False,
+                    "sample": {"cell": zoo.cell_name(cell), "skipped": "finite difference not reliable", "fds": fds,
+                               "autograd": an}}
+        viol.append({"mechanism": f"backprop_differs_from_finite_difference:{'adaptive' if case['adaptive'] else 'fixed'}"
+                                  f"{':logqp' if logqp else ''}",
                      "detail": f"autograd {an:.10g} vs FD {fd:.10g} rel {rel:.3e} {ctx}"})
     nsteps = len(nominal.steps)
     if case["adaptive"]:
